@@ -43,8 +43,33 @@ func init() { Registry["X-bounds"] = debugBounds }
 func debugBounds(r *core.Run) {
 	p := load(r, core.LoadOpts{})
 	run := p.Func("client/network.(*OneConnection).Run")
-	ba := an.NewBoundsAnalysis(p, an.BoundsConfig{TaintedFields: map[string]bool{"client/network.BCmsg.pl": true}})
-	ba.Root(run, nil)
+	tf := map[string]bool{"client/network.BCmsg.pl": true}
+	var tp []int
+	if f := os.Getenv("GCV_FN"); f != "" {
+		run = p.Func(f)
+		tf = map[string]bool{}
+		for _, x := range strings.Split(os.Getenv("GCV_TAINT"), ",") {
+			if x != "" {
+				tf[x] = true
+			}
+		}
+		for _, x := range strings.Split(os.Getenv("GCV_TPARAMS"), ",") {
+			if x != "" {
+				var i int
+				fmt.Sscanf(x, "%d", &i)
+				tp = append(tp, i)
+			}
+		}
+	}
+	ba := an.NewBoundsAnalysis(p, an.BoundsConfig{TaintedFields: tf, RecoverScope: hasRecover})
+	ba.Root(run, tp)
+	if os.Getenv("GCV_SHOW") != "" {
+		for _, ob := range ba.Obs {
+			if !ob.Proven {
+				fmt.Printf("UNPROVEN %s %s %s :: need %s [%s]\n", p.Pos(an.InstrPos(ob.Instr)), ob.Kind, ob.Expr, ob.Need, strings.Join(ob.Chain, " > "))
+			}
+		}
+	}
 	cnt := map[string][2]int{}
 	for _, ob := range ba.Obs {
 		c := cnt[core.FuncName(ob.Fn)]
